@@ -23,11 +23,11 @@ mkdir -p "$OUT/buildprof"
 LLVM_PROFILE_FILE="$OUT/buildprof/%p-%m.profraw" RUSTFLAGS="-Cinstrument-coverage" cargo +nightly build --offline --profile verif --workspace 2>&1 | tail -2
 export LLVM_PROFILE_FILE="$OUT/prof/%p-%m.profraw"
 for p in "${PROPS[@]}"; do
-  case "$p" in C01|C02|C03|C04|C05|C19) b=vh-push;; C09) b=vh-gen;; *) b=vh-ec;; esac
+  case "$p" in C09) b=vh-gen;; *) b=$(echo "$p" | tr 'C' 'c');; esac
   echo "== $p"; VERIF_NO_MIRI=1 "$CARGO_TARGET_DIR/verif/$b" "$p" --tier "$TIER" 2>&1 | tail -1 || true
 done
 "$BIN_DIR/llvm-profdata" merge -sparse "$OUT"/prof/*.profraw -o "$OUT/all.profdata"
-OBJS=(); for b in vh-push vh-ec vh-gen; do OBJS+=(-object "$CARGO_TARGET_DIR/verif/$b"); done
+OBJS=(); for b in c01 c02 c03 c04 c05 c06 c07 c08 c10 c11 c12 c13 c14 c15 c16 c17 c18 c19 vh-gen; do OBJS+=(-object "$CARGO_TARGET_DIR/verif/$b"); done
 "$BIN_DIR/llvm-cov" report "${OBJS[@]}" -instr-profile="$OUT/all.profdata" \
    -ignore-filename-regex='(\.cargo|rustc|/verif/)' 2>/dev/null | sed 's#/repo/packages/##' > "$OUT/summary.txt"
 "$BIN_DIR/llvm-cov" show "${OBJS[@]}" -instr-profile="$OUT/all.profdata" \
